@@ -931,6 +931,17 @@ def assess(case, schedule, obs, L, replay_ans, judge_ans, res, ctx, shut_ans=Non
             out.append(('C11:shutdown:deadlock', 'all threads blocked without a time-out pending'))
         if obs['aborted'] is not None and not obs['deadlock']:
             who = '+'.join(sorted({a.rstrip('0123456789') for a in obs['alive']}))
+            # (canonicalisation only) did a request connect anew while a disconnect() called by the user was in progress?
+            depth, overlap = 0, False
+            for e in obs['events']:
+                if e[1] in ('close.begin', 'final.begin'):
+                    depth += 1
+                elif e[1] in ('close.end', 'final.end'):
+                    depth -= 1
+                elif e[1] == 'c.new' and e[2] and depth > 0 and e[0].startswith('c') and e[0] != 'closer':
+                    overlap = True
+            if overlap:
+                who += ':request-connects-during-user-disconnect'
             out.append((f'C11:shutdown:no-termination:{who}', f'run aborted: {obs["aborted"]}; threads still running: {obs["alive"]}'))
         for k, v in sorted(obs['errors'].items()):
             out.append((f'C11:shutdown:thread-error:{k.rstrip("0123456789")}:{v}', f'{v} escaped thread {k}'))
@@ -1216,7 +1227,7 @@ def run(ctx):
             c = json.load(open(os.path.join(cdir, fn)))
             do(c['case'], vsched.ReplayThenDefault(c['schedule']))
     # ---------- the catalogue, systematically ----------
-    per_case = ctx.budget(180, 2500)
+    per_case = ctx.budget(180, 1500)
     for case in catalogue():
         res.count('catalogue-scenarios')
         case = {k: v for k, v in case.items() if k != 'name'}
@@ -1229,7 +1240,7 @@ def run(ctx):
                 res.count('hold-schedules')
                 do(case, HoldPolicy(name, k))
     # ---------- generated cases: a few systematic schedules, then random ones ----------
-    for _ in range(ctx.budget(160, 1500)):
+    for _ in range(ctx.budget(160, 1000)):
         case = gen_case(rng, big)
         for prefix, obs in explore_case(case, 1 if not big else 2, ctx.budget(6, 30), rng):
             runs.append((case, effective_schedule(obs), obs))
